@@ -733,8 +733,18 @@ def read_field_stores(src, funcs, fields):
 
 
 def read_complex_cases(src, funcs, consts):
+    # since /repo baa32de `validate_trait_complex` pins `trait->py_validate` and calls
+    # `validate_trait_complex_body`, which holds the switch; the wrapper must be exactly that call-through
+    target = "validate_trait_complex"
+    by_name = {n: (a, b) for n, a, b in funcs}
+    if target in by_name and "validate_trait_complex_body" in by_name:
+        wa, wb = by_name[target]
+        wrapper = src[wa:wb]
+        if "switch" in wrapper or not re.search(r"result\s*=\s*validate_trait_complex_body\s*\(\s*trait\s*,\s*obj\s*,\s*name\s*,\s*value\s*\)", wrapper):
+            raise Shape("validate_trait_complex: neither the switch nor the call-through to validate_trait_complex_body")
+        target = "validate_trait_complex_body"
     for n, a, b in funcs:
-        if n == "validate_trait_complex":
+        if n == target:
             body = src[a:b]
             ms = re.search(r"switch\s*\(\s*PyLong_AsLong\s*\(\s*PyTuple_GET_ITEM\s*\(\s*type_info\s*,\s*0\s*\)\s*\)\s*\)\s*\{", body)
             if not ms:
